@@ -42,6 +42,7 @@ def run_case(case):
     log = Log(case.get('_seed'))
     ctx = c10.Ctx()
     c10.set_ctx(ctx)
+    c10.flush_process_state()
     c10.build_apps(ctx, case)
     calls = case['threads']
     n = len(calls)
